@@ -78,6 +78,8 @@ type VM struct {
 	wgs        map[wgKey]*int
 	lastPos    token.Pos
 	curFn      *ssa.Function
+	forceInit  *ssa.Function
+	stack      []*ssa.Function
 }
 
 type frame struct {
